@@ -70,6 +70,8 @@ def histories(tier):
     out += [["rebegin"], ["nobody", "rebegin"], ["nobody", "rebegin", "nobody"], ["set", "rebegin", "set"], ["rebegin", "rebegin", "nobody"]]
     # one run-steps request for two steps: the SAME settings object is logged for both steps
     out += [["steps2set"], ["nobody", "steps2set"], ["steps2set", "set"], ["steps2empty", "nobody"]]
+    # the rest of the session through one stream-steps request (without a body / with settings): the save must follow the LAST streamed step
+    out += [["stream"], ["nobody", "stream"], ["set", "stream"], ["streamset"], ["nobody", "streamset"]]
     # a session over TWO scenarios of the manager (marker "two" first)
     out += [["two", "nobody", "nobody"], ["two", "nobody", "nobody", "nobody"], ["two", "set", "nobody"]]
     return out
@@ -142,6 +144,13 @@ def run_case(spec, hist, compress, mode_whole, mode, env=None):
                 r = post("/%s/run-steps" % inst, {"numberSteps": 2, "settings": {"sm": {"A": {"constants": {"k": v}}}}})
             elif kind == "steps2empty":
                 r = post("/%s/run-steps" % inst, {"numberSteps": 2, "settings": {}})
+            elif kind in ("stream", "streamset"):
+                if kind == "streamset":
+                    v = scen.sym_const("v%d" % i) if mode == "sym" else float((env or {}).get("v%d" % i, 2.0 + i))
+                    r = post("/%s/stream-steps" % inst, {"settings": {"sm": {"A": {"constants": {"k": v}}}}})
+                else:
+                    r = post("/%s/stream-steps" % inst)
+                r.get_data()                                  # the client reads the stream to its end
             elif kind == "rebegin":
                 eqs = scen.EQS[:2] if (hist[:i + 1].count("rebegin") % 2) else scen.EQS[1:]
                 r = post("/%s/begin-session" % inst, {"scenario_managers": ["sm"], "scenarios": ["A"], "equations": eqs})
